@@ -1,11 +1,11 @@
 PROP = {
     "go_test": "TestC12",
     "claimed": True,
-    "level_text": "Kernel-checked theorems (10, closed under the global context): for every endpoint x status x type x ANY right mask x manager/governance/supply flags, the transcribed access decision performs the operation only for a caller meeting the documented requirement (rights from accessgrant.proto, alternatives from the spec), the per-method guard table extracted from the Go source equals the documented one (the code before fix 374f3de02, where a rights-less caller was 'holder of the whole supply' of a zero-supply marker, is refuted by a witness); a MsgTransferRequest goes through only from the admin's own account, under an accepting grant of the source, or as a forced transfer on a marker allowing it, never out of a module/contract-shaped account; over ALL sequences of uses of a grant the total moved per denom never exceeds the original limit and every recipient is on the original allow list (and the pre-fix Accept is refuted by a two-step witness). The theorems are about Gallina transcriptions; each run re-evaluates them against the real message router / marker, authz, bank keepers on ~15,000 (quick) / ~187,000 (thorough) cases inside Coq and evaluates the property's checker on the implementation's own observations.",
+    "level_text": "Kernel-checked theorems (13, closed under the global context): for every endpoint x status x type x ANY right mask x manager/governance/supply flags, the transcribed access decision performs the operation only for a caller meeting the documented requirement (rights from accessgrant.proto, alternatives from the spec), the per-method guard table extracted from the Go source equals the documented one (the code before fix 374f3de02, where a rights-less caller was 'holder of the whole supply' of a zero-supply marker, is refuted by a witness); a MsgTransferRequest goes through only from the admin's own account, under an accepting grant of the source, or as a forced transfer on a marker allowing it, never out of a module/contract-shaped account; over ALL sequences of uses of a grant the total moved per denom never exceeds the original limit and every recipient is on the original allow list (and the pre-fix Accept is refuted by a two-step witness). The theorems are about Gallina transcriptions; each run re-evaluates them against the real message router / marker, authz, bank keepers on ~29,000 (quick) / ~350,000 (thorough) cases inside Coq and evaluates the property's checker on the implementation's own observations.",
     "level_note": "Trusted: Coq kernel + vm_compute; the hand transcriptions Marker/Access.v (decision table + documented table) and Marker/Authz.v, tied to the code by the correspondence run only (bounded by its generators) and by the generated table GenMarkerAccess.v when the translator hook is present; the harness' projection (rights set by writing the marker's access list directly, statuses reached through the real keeper transitions); module/contract accounts characterised by shape (existing, sequence 0, not marker/market/group). No axioms.",
     "technique": "Coq proof (case analysis over the finite table, induction over use sequences) of a Gallina model + differential correspondence evaluated in Coq",
     "coq_files": ["Marker/Access.v", "Marker/Authz.v", "Marker/AccessTable.v", "Gen/GenMarkerAccess.v", "Proofs/MarkerAccessProofs.v", "Proofs/MarkerAccessGenProofs.v", "Corr/CorrBase.v", "Corr/C12.v"],
-    "rule": "access matrix: 15 endpoints x 7 status variants (with/without surviving manager) x coin/restricted x a covering set of right masks (quick: empty, full, 8 singles, 8 complements, random; thorough: all 256, 64 for coin markers) x caller kind (plain, manager, former manager, governance account) x governance-control flag x supply modes (normal, caller holds all, zero supply); transfers: admin rights x forced flag x 9 source kinds x 8 grant shapes x 4 destination kinds x amounts (0, negative, partial, exact, above balance); sequences: 1-6 (thorough 1-10) uses of one grant with/without allow list through the marker keeper's authz handler and through authz MsgExec. A case is non-trivial when the call succeeded (access, transfer) or at least two uses of the grant were accepted (sequence); distinct = distinct configurations / step lists",
+    "rule": "access matrix: 15 endpoints x 14 status variants (7 built with the keeper, 7 driven through the message router incl. governance ChangeStatus, e.g. Proposed -> Active directly; with/without surviving manager; the former manager holding no grant is one of the callers) x coin/restricted x a covering set of right masks (quick: empty, full, 8 singles, 8 complements, random; thorough: all 256, 64 for coin markers) x caller kind (plain, manager, former manager, governance account) x governance-control flag x supply modes (normal, caller holds all, zero supply); transfers: admin rights x forced flag x 9 source kinds x 8 grant shapes x 4 destination kinds x amounts (0, negative, partial, exact, above balance); lifecycles: random 1-5 transitions (finalize, activate, cancel, delete, governance status changes) through the real handlers, each followed by probes of the endpoints as the creating manager; sequences: 1-6 (thorough 1-10) uses of one grant with/without allow list through the marker keeper's authz handler and through authz MsgExec. A case is non-trivial when the call succeeded (access, transfer) or at least two uses of the grant were accepted (sequence); distinct = distinct configurations / step lists",
     "assumptions": ["callers are identified by the signer field of each message (Administrator / Signer / Authority / TransferAuthority)",
                     "module accounts and smart-contract accounts never sign, so they are existing accounts with sequence 0 that are neither marker, market nor group-policy accounts",
                     "Transfer / ForceTransfer cannot be stored on a coin marker (SetMarker validates), so coin markers are exercised with the 64 masks over the other six rights",
